@@ -5,12 +5,11 @@
    re-translated from /repo on every run (Gen/C08Conv.v); attribute_validate / required_validate (Model/C08Spec.v) compose
    them as Attribute.validate / Required.validate do and are compared with the real attr.validate on every run.
 
-   int and float: the full statement, zero bounds included (the `min_val or lowest` / `if converter.min_val and ..` defect was
-   repaired in /repo commit 2abc421; the proofs compute `int_zero_bound_ignored = false` / `real_zero_bound_ignored = false`
-   from the regenerated translation, so reverting the repair breaks them).
-   str: `if max_len and ..` still treats max_len = 0 as "no limit" (known finding): C08_str_except_known is the operative
-   theorem, C08_str_full_if_fixed is vacuous while str_zero_max_len_ignored computes to true.  float NaN passes any bounds
-   (known finding): the float theorem speaks about non-NaN values. *)
+   int, float (NaN included), str and the declared type of every converter incl. bool: the full statements.  The defects this check
+   found (a declared bound of 0 dropped; NaN passing declared bounds; max_len = 0 ignored; bool() applied to any value) were
+   repaired in /repo commits 2abc421, 5df2d83, d8f353a, 2d5f552; the proofs compute the corresponding flags from the regenerated
+   translation (int_flag_false, real_flag_false, real_nan_flag_false, str_flag_false, bool_flag_false), so reverting a repair
+   breaks them.  Remaining finding: Decimal precision/scale are never compared with the value (Findings/C08.v). *)
 Require Import PonyV.Base.PyBase PonyV.Model.C08Base PonyV.Gen.C08Conv PonyV.Model.C08Spec PonyV.Proofs.C08IntInit PonyV.Proofs.C08Proofs.
 
 (* Which int declarations (size, unsigned, min, max) Pony accepts: exactly those with a legal size, a supported
@@ -34,11 +33,12 @@ Theorem C08_int_reject : forall uint64 d c v,
 Proof. exact int_reject. Qed.
 Print Assumptions C08_int_reject.
 
-(* float attributes: every non-NaN value, every pair of (non-NaN) declared bounds, zero included *)
+(* float attributes: EVERY value (NaN and infinities included), every pair of non-NaN declared bounds, zero included;
+   NaN is within bounds only when no bound is declared *)
 Theorem C08_float : forall mn mx v,
-  v <> NNan -> not_nan_opt mn -> not_nan_opt mx ->
+  not_nan_opt mn -> not_nan_opt mx ->
   (real_validate mn mx v = Ok v <-> num_in_bounds mn mx v).
-Proof. exact real_accept. Qed.
+Proof. exact real_accept_all. Qed.
 Print Assumptions C08_float.
 
 Theorem C08_float_reject : forall mn mx v, real_validate mn mx v <> Ok v -> real_validate mn mx v = Err ValueError.
@@ -58,22 +58,15 @@ Print Assumptions C08_decimal_reject.
 
 (* str attributes: for every string, accepted iff the (auto-stripped) value is at most max_len long; the value stored is the
    normalised one; strip() removes exactly a maximal whitespace prefix and suffix *)
-Theorem C08_str_except_known : forall autostrip max_len s,
-  max_len <> Some 0 ->
-  (str_validate autostrip max_len s = Ok (str_norm autostrip s) <-> le_opt max_len (zlen (str_norm autostrip s))).
-Proof. exact str_accept_except_known. Qed.
-Print Assumptions C08_str_except_known.
+Theorem C08_str : forall autostrip max_len s,
+  str_validate autostrip max_len s = Ok (str_norm autostrip s) <-> le_opt max_len (zlen (str_norm autostrip s)).
+Proof. exact str_accept. Qed.
+Print Assumptions C08_str.
 
-Theorem C08_str_reject_except_known : forall autostrip max_len s,
-  max_len <> Some 0 -> ~ le_opt max_len (zlen (str_norm autostrip s)) -> str_validate autostrip max_len s = Err ValueError.
-Proof. exact str_reject_except_known. Qed.
-Print Assumptions C08_str_reject_except_known.
-
-Theorem C08_str_full_if_fixed : forall autostrip max_len s,
-  str_zero_max_len_ignored = false ->
-  (str_validate autostrip max_len s = Ok (str_norm autostrip s) <-> le_opt max_len (zlen (str_norm autostrip s))).
-Proof. exact str_accept_full_if_fixed. Qed.
-Print Assumptions C08_str_full_if_fixed.
+Theorem C08_str_reject : forall autostrip max_len s,
+  ~ le_opt max_len (zlen (str_norm autostrip s)) -> str_validate autostrip max_len s = Err ValueError.
+Proof. exact str_reject. Qed.
+Print Assumptions C08_str_reject.
 
 Theorem C08_str_value : forall autostrip max_len s r, str_validate autostrip max_len s = Ok r -> r = str_norm autostrip s.
 Proof. exact str_validate_value. Qed.
@@ -141,11 +134,11 @@ Theorem C08_assignment_int : forall uint64 d c held v,
 Proof. exact assign_int. Qed.
 Print Assumptions C08_assignment_int.
 
-(* declared TYPE: for every converter except bool, a value is accepted only if its Python type is the declared one or a documented
-   coercion of it, the value validate goes on with has the declared type, the declared type itself is always accepted, and a refusal
-   is a TypeError or ValueError.  (type_dispatch: interpreted from each converter's validate on every run, one representative value
-   per Python type; bool applies bool() to anything - known finding.) *)
-Theorem C08_declared_type : forall c t r, c <> CBool ->
+(* declared TYPE: for every converter, a value is accepted only if its Python type is the declared one or a documented coercion
+   of it (bool: bool and int), the value validate goes on with has the declared type, the declared type itself is always accepted,
+   and a refusal is a TypeError or ValueError.  (type_dispatch: interpreted from each converter's validate on every run, one
+   representative value per Python type.) *)
+Theorem C08_declared_type : forall c t r,
   type_dispatch c t = TyAccept r -> tag_in t (type_allowed c) = true /\ r = type_result c t.
 Proof. exact type_accept_sound. Qed.
 Print Assumptions C08_declared_type.
@@ -157,11 +150,6 @@ Print Assumptions C08_declared_type_accepted.
 Theorem C08_type_reject_class : forall c t cls, type_dispatch c t = TyReject cls -> cls = TypeError \/ cls = ValueError.
 Proof. exact type_reject_class. Qed.
 Print Assumptions C08_type_reject_class.
-
-Theorem C08_declared_type_bool_if_fixed : forall t r, bool_accepts_any_type = false ->
-  type_dispatch CBool t = TyAccept r -> tag_in t (type_allowed CBool) = true /\ r = TgBool.
-Proof. exact type_accept_sound_bool_if_fixed. Qed.
-Print Assumptions C08_declared_type_bool_if_fixed.
 
 (* Decimal(precision, scale): accepted declarations are exactly 0 < scale <= precision (scale 0 is refused!) *)
 Theorem C08_decimal_declaration : forall p s, (exists r, dec_init p s = Ok r) <-> 0 < p /\ 0 < s /\ s <= p.
